@@ -41,6 +41,57 @@ FUN1 = {"exp": "exp", "ln": "log", "sin": "sin", "cos": "cos", "sqrt": "sqrt", "
         "sympy_sqrt": "sqrt", "sympy_tanh": "tanh", "sympy_coth": "coth", "sympy_cosh": "cosh", "sympy_sinh": "sinh"}
 
 
+AMBIENT = []         # module globals of the modules a translate_* function reads statements from directly
+GLOBALS_STACK = []   # module globals of the function being translated (innermost last)
+COTH_BODY = '(.mul (.num 1) (.inv (.tanh (.var "x"))))'
+PRIM_CHECKS = {"checked": 0}
+
+
+def check_primitive(name):
+    """The translation maps a called NAME to a primitive of `E` (exp, log, sqrt, tanh, coth, …).  That is only sound if the name is
+    bound, in the module of the function being translated, to the function the primitive denotes: numpy's / sympy's / math's function
+    of that meaning, or - for coth - a Python helper whose own translation is 1/tanh(x).  Anything else is untranslatable."""
+    prim = FUN1[name]
+    for g in ([GLOBALS_STACK[-1]] if GLOBALS_STACK else AMBIENT):
+        if name in g:   # otherwise not a module-level name (a parameter or local alias): nothing to resolve
+            check_binding(name, prim, g[name])
+
+
+def check_named(name):
+    """`pi`, `abs`, `array_sum`, `ones`, `len`, `float`: the same question for the other names the translation gives a fixed meaning"""
+    import builtins
+    import math
+    import numpy
+    want = {"pi": [numpy.pi, math.pi], "abs": [builtins.abs, numpy.abs, numpy.absolute], "array_sum": [numpy.sum], "ones": [numpy.ones],
+            "len": [builtins.len], "float": [builtins.float]}[name]
+    for g in ([GLOBALS_STACK[-1]] if GLOBALS_STACK else AMBIENT):
+        if name in g:
+            PRIM_CHECKS["checked"] += 1
+            obj = g[name]
+            if not any((obj is w) or (isinstance(w, float) and isinstance(obj, float) and obj == w) for w in want):
+                raise Untranslatable(f"the name {name} is bound to {obj!r}, not to what the model assumes")
+
+
+def check_binding(name, prim, obj):
+    import math
+    import numpy
+    import sympy
+    PRIM_CHECKS["checked"] += 1
+    target = {"log": "log"}.get(prim, prim)
+    for mod in (numpy, sympy, math):
+        if getattr(mod, target, None) is obj:
+            return
+    if inspect.isfunction(obj) and prim == "coth":
+        try:
+            body = translate_function(obj)
+        except Untranslatable as ex:
+            raise Untranslatable(f"helper {name} ({obj.__module__}): {ex}")
+        if body == COTH_BODY:
+            return
+        raise Untranslatable(f"helper {name} ({obj.__module__}) is no longer 1 / tanh(x): {body[:200]}")
+    raise Untranslatable(f"the name {name} is bound to {getattr(obj, '__module__', '?')}.{getattr(obj, '__name__', repr(obj))}, not to the primitive {prim} the model assumes")
+
+
 def py2e(node, env):
     if isinstance(node, ast.BinOp):
         a, b = py2e(node.left, env), py2e(node.right, env)
@@ -88,6 +139,7 @@ def py2e(node, env):
         if node.id in env:
             return env[node.id]
         if node.id == "pi":
+            check_named("pi")
             return ".pi"
         return f'(.var "{node.id}")'
     if isinstance(node, ast.Call) and isinstance(node.func, ast.Attribute) and isinstance(node.func.value, ast.Name) and node.func.value.id == "self" \
@@ -115,6 +167,8 @@ def py2e(node, env):
     if isinstance(node, ast.Call):
         if isinstance(node.func, ast.Attribute) and node.func.attr == "astype":
             return py2e(node.func.value, env)  # dtype cast: identity on values
+        if isinstance(node.func, ast.Name) and node.func.id in ("abs", "float", "array_sum", "ones", "len"):
+            check_named(node.func.id)
         if isinstance(node.func, ast.Name) and node.func.id == "abs" and len(node.args) == 1 and not node.keywords:
             return f"(.abs {py2e(node.args[0], env)})"
         if isinstance(node.func, ast.Name) and node.func.id in ("float", "array_sum") and len(node.args) == 1 and not node.keywords:
@@ -125,6 +179,7 @@ def py2e(node, env):
         if isinstance(node.func, ast.Name) and node.func.id == "len" and len(node.args) == 1 and not node.keywords:
             return '(.var "N")'   # the number of points
         if isinstance(node.func, ast.Name) and node.func.id in FUN1 and len(node.args) == 1 and not node.keywords:
+            check_primitive(node.func.id)
             return f"(.{FUN1[node.func.id]} {py2e(node.args[0], env)})"
         raise Untranslatable("call " + ast.unparse(node.func))
     raise Untranslatable("node " + type(node).__name__)
@@ -152,7 +207,19 @@ SELF_CLASS = None   # class whose methods `self.<name>(...)` calls are inlined (
 _INLINE_DEPTH = 0
 
 
+def set_ambient(*mods):
+    AMBIENT[:] = [vars(m) for m in mods]
+
+
 def translate_function(fn_obj, binding=None):
+    GLOBALS_STACK.append(getattr(inspect.unwrap(getattr(fn_obj, "__func__", fn_obj)), "__globals__", {}))
+    try:
+        return _translate_function(fn_obj, binding)
+    finally:
+        GLOBALS_STACK.pop()
+
+
+def _translate_function(fn_obj, binding=None):
     src = textwrap.dedent(inspect.getsource(fn_obj))
     fn = ast.parse(src).body[0]
     env = dict(binding or {})
@@ -219,6 +286,8 @@ def translate_tlm(out, names_out, untranslatable):
     `_sympy` (symbolic), plus the shared auxiliaries lm, cs, ct, s."""
     global RENAME, SELF_CLASS
     from pyimpspec.circuit.transmission_line_model import TransmissionLineModel as T
+    import sys as _sys
+    set_ambient(_sys.modules[T.__module__])
     eqs = ["_eq8", "_eq16", "_eq17", "_eq18", "_eq18_variant", "_eq19", "_eq20"]
     try:
         RENAME = {}
@@ -267,6 +336,7 @@ def translate_tlm(out, names_out, untranslatable):
 def translate_analysis(out, names_out, untranslatable):
     """`_calculate_residuals`, `_boukamp_weight`, `_calculate_pseudo_chisqr` of analysis/utility.py (per point)."""
     import pyimpspec.analysis.utility as U
+    set_ambient(U)
     try:
         INLINE["_boukamp_weight"] = return_expr(U._boukamp_weight)
         out.append(f"/-- `_calculate_residuals(Z_exp, Z_fit)`, one point -/\ndef residual : E := {translate_function(U._calculate_residuals)}")
@@ -298,6 +368,7 @@ def branches_on(fn_obj, flag):
 def translate_kk(out, names_out, untranslatable):
     """Columns of the design matrix of the linear Kramers-Kronig tests (least_squares.py), both representations."""
     import pyimpspec.analysis.kramers_kronig.least_squares as LS
+    set_ambient(LS)
     try:
         for name, fn in (("kth", LS._calculate_kth_A_matrix_variables), ("cap", LS._add_capacitance_to_A_matrix), ("ind", LS._add_inductance_to_A_matrix)):
             y, z = branches_on(fn, "admittance")
@@ -313,6 +384,7 @@ def translate_zhit(out, names_out, untranslatable):
     the offset fit `_offset_residual`."""
     import pyimpspec.analysis.zhit.reconstruction as RC
     import pyimpspec.analysis.zhit.offset as OF
+    set_ambient(RC, OF)
     try:
         src = textwrap.dedent(inspect.getsource(RC._reconstruct))
         fn = ast.parse(src).body[0]
@@ -353,6 +425,7 @@ def translate_zhit(out, names_out, untranslatable):
 def translate_fit(out, names_out, untranslatable):
     """C12: the two rows (real, imaginary) of the error term of `_residual` and of the four weight functions."""
     import pyimpspec.analysis.fitting as FT
+    set_ambient(FT)
     try:
         src = textwrap.dedent(inspect.getsource(FT._residual))
         fn = ast.parse(src).body[0]
@@ -408,6 +481,7 @@ def translate_drt(out, names_out, untranslatable):
     import pyimpspec.analysis.drt.tr_nnls as TR
     import pyimpspec.analysis.drt.lm as LM
     import pyimpspec.analysis.drt.mrq_fit as MF
+    set_ambient(TR, LM, MF)
     try:
         # ---- TR-NNLS
         fn = ast.parse(textwrap.dedent(inspect.getsource(TR._generate_A_matrix))).body[0]
@@ -463,6 +537,7 @@ def translate_kkauto(out, names_out, untranslatable):
     the mock data's noise model (`sd = noise / 100 * abs(Z_ideal)` in `_add_noise`)."""
     import pyimpspec.analysis.kramers_kronig.utility as KU
     import pyimpspec.mock_data as MD
+    set_ambient(KU, MD)
     try:
         out.append(f"/-- `_estimate_pct_noise(Z, pseudo_chisqr)` with N = len(Z) -/\ndef est_pct_noise : E := {translate_function(KU._estimate_pct_noise)}")
         out.append(f"/-- `_estimate_pseudo_chisqr(Z, pct_noise)` with N = len(Z) -/\ndef est_pseudo_chisqr : E := {translate_function(KU._estimate_pseudo_chisqr)}")
@@ -483,6 +558,7 @@ def translate_kkauto(out, names_out, untranslatable):
         # `_calculate_intercept_of_lines` and its two call sites in `_estimate_target_num_RC` (arguments inlined)
         import pyimpspec.analysis.kramers_kronig.exploratory as EX
         import pyimpspec.analysis.kramers_kronig.algorithms.utility.pseudo_chi_squared as PC
+        set_ambient(KU, MD, EX, PC)
         params, body = return_expr(PC._calculate_intercept_of_lines)
         if params != ["s1", "o1", "s2", "o2"]:
             raise Untranslatable(f"_calculate_intercept_of_lines: parameters {params}")
@@ -574,4 +650,4 @@ def generate(gen_dir, untranslatable):
     out.append("")
     out.append("end Gen.K")
     changed = translate.write_if_changed(os.path.join(gen_dir, "Kernels.lean"), "\n".join(out) + "\n")
-    return {"kernels": names, "changed": changed}
+    return {"kernels": names, "changed": changed, "primitive_bindings_checked": PRIM_CHECKS["checked"]}
